@@ -24,7 +24,7 @@ impl Prop for C06 {
         "exploration"
     }
     fn rule(&self) -> &'static str {
-        "one run = one random tree and 1-6 messages of 1-4 units; every unit carries n in 0..6 unique data elements of all seven types (indefinite block only last) and its handler pulls m in 0..n+2 parameters with a seeded mix of required/optional pulls, at first/middle/last unit, before ';', white space + ';', NL, white space or end of input, events and queries; pulls, -108/-109 results and the handler log are compared with the parameter model. distinct_nontrivial = distinct (n supplied, m pulled, required/optional pattern of the surplus pulls, unit position class, ending class, query?) tuples"
+        "one run = one random tree and 1-6 messages of 1-4 units; every unit carries n in 0..6 unique data elements of all seven types (indefinite block only last; one unit in ~100 is a long list of 254..513 elements) and its handler pulls m in 0..n+2 parameters with a seeded mix of required/optional pulls, at first/middle/last unit, before ';', white space + ';', NL, white space or end of input, events and queries; pulls, -108/-109 results and the handler log are compared with the parameter model. distinct_nontrivial = distinct (n supplied, m pulled, required/optional pattern of the surplus pulls, unit position class, ending class, query?) tuples"
     }
     fn assumptions(&self) -> Vec<String> {
         vec![
@@ -49,6 +49,7 @@ impl Prop for C06 {
             "zero_params_with_trailing_space",
             "zero_params_no_space",
             "exact_consumption_6",
+            "long_list_of_256_or_more_elements_pulled_to_the_end",
             "indefinite_block_last",
             "optional_typed_pull_on_wrong_type",
             "tolerant_handler_pulls_on_after_refused_conversion",
@@ -90,6 +91,15 @@ impl Prop for C06 {
                     fancy_ws: true,
                 };
                 let mut u = gen_app_unit(&mut rng, &tc, &leaf, &level, i == 0, &mut uniq, &o);
+                // a long list (list commands pull `while let Some(..)`): element counts around the
+                // widths a position counter could have (255/256/257, 300, 511..513)
+                if !u.params.is_empty() && !matches!(u.params.last(), Some(Elem::BlkIndef { .. })) && rng.chance(1, 96) {
+                    let target = *rng.pick(&[254usize, 255, 256, 257, 258, 300, 511, 512, 513]);
+                    while u.params.len() < target {
+                        u.params.push(gen_elem(&mut rng, &mut uniq, false));
+                        u.psep.push(if rng.chance(1, 8) { gen_psep(&mut rng) } else { B::from(",") });
+                    }
+                }
                 let n = u.params.len();
                 // scheduled pull pattern: m in 0..n+2
                 let m = match rng.below(5) {
@@ -226,6 +236,9 @@ impl Prop for C06 {
                     }
                     if n == 6 && m == 6 {
                         stats.probe("exact_consumption_6");
+                    }
+                    if n >= 256 && m >= n {
+                        stats.probe("long_list_of_256_or_more_elements_pulled_to_the_end");
                     }
                     for (j, p) in u.plan.pulls.iter().enumerate() {
                         if j < n && !p.req && p.ty != PullTy::Tok && clearly_wrong_type(p.ty, &u.params[j]) {
